@@ -76,6 +76,7 @@ func init() {
 		for _, d := range []bool{false, true} {
 			vq = append(vq, restartLateParams{Tail: 1, Late: 1, Third: true, Delay: d, Size: 2})
 			vq = append(vq, restartLateParams{Tail: 0, Late: 2, Third: true, Delay: d, Size: 1})
+			vq = append(vq, restartLateParams{Tail: 1, Late: 1, Third: true, Delay: d, Size: 2, Internal: true})
 			vt = append(vt, restartLateParams{Tail: 2, Late: 2, Third: true, Delay: d, Size: 1})
 			vt = append(vt, restartLateParams{Tail: 1, Late: 2, Third: false, Delay: d, Size: 2})
 		}
@@ -117,8 +118,11 @@ func init() {
 				sw = append(sw, swrParams{Stop: st, Others: o}, swrParams{Stop: st, Others: o, Child: true})
 			}
 		}
-		Register(&Job{Name: "C10/engine/stop-wait-respawn", Prop: "C10", Bound: 2, BoundT: 3, Budget: 40, BudgetT: 600, Shards: 4,
-			Desc: "stop/poison an actor (root or child), wait for the stop context, spawn the same id again at once while 0-2 other pending stop requests are still being acknowledged: the producer of the respawn runs once, no ActorDuplicateIdEvent, the new actor owns the id (GetPID, delivery)",
+		for _, st := range []int{1, 2} {
+			sw = append(sw, swrParams{Stop: st, StopPanics: true}, swrParams{Stop: st, StopPanics: true, Child: true}, swrParams{Stop: st, Probe: true}, swrParams{Stop: st, Probe: true, Child: true})
+		}
+		Register(&Job{Name: "C10/engine/stop-wait-respawn", Prop: "C10", Bound: 2, BoundT: 3, Budget: 40, BudgetT: 600, Shards: 5,
+			Desc: "stop/poison an actor (root or child), wait for the stop context, spawn the same id again at once while 0-2 other pending stop requests are still being acknowledged: the producer of the respawn runs once, no ActorDuplicateIdEvent, the new actor owns the id (GetPID, delivery); also with a receiver that panics in its Stopped handler, and with a receiver that, inside its Stopped handler, compares GetPID for its own id with the outcome of a spawn of that id (taken exactly while registered)",
 			Make: func() vsched.Instance { return engStopWaitRespawn(sw) }})
 		Register(&Job{Name: "C10/engine/respawn-histories", Prop: "C10", Bound: 0, BoundT: 1, Budget: 40, BudgetT: 900,
 			Desc: "all sequences of length<=4 (quick) over {spawn a, spawn b, stop+wait a, poison+wait a, send a, getpid a} against a map[id]incarnation model, quiescent steps",
@@ -248,12 +252,12 @@ func init() {
 		var odd []treeParams
 		for _, sh := range [][2]int{{1, 1}, {1, 2}, {2, 1}} {
 			for _, st := range []int{1, 2} {
-				for _, ex := range []int{9, 10, 11} {
+				for _, ex := range []int{9, 10, 11, 12, 13} {
 					odd = append(odd, treeParams{Depth: sh[0], Fan: sh[1], Stop: st, Extra: ex})
 				}
 			}
 		}
-		Register(&Job{Name: "C08/engine/tree-shutdown-awkward-children", Prop: "C08", Bound: 1, BoundT: 2, Budget: 45, BudgetT: 900, Shards: 6,
+		Register(&Job{Name: "C08/engine/tree-shutdown-awkward-children", Prop: "C08", Bound: 1, BoundT: 2, Budget: 45, BudgetT: 900, Shards: 10,
 			Desc: "tree shapes 1x1, 1x2, 2x1; a leaf panics inside its final Stopped handler; the whole tree is spawned WithContext(an already cancelled context); a leaf that was poisoned by a third party is still inside its Stopped handler when the root's shutdown reaches it: descendants have finished handling Stopped and are unregistered before their parent handles Stopped and before the root's stop context is done, nothing hangs",
 			Make: func() vsched.Instance { return engTree(odd) }})
 		names := map[int][2]string{
